@@ -43,10 +43,10 @@ def compound_patterns(ctx):
 def gen(ctx):
     texts = qpool.all_texts() + compound_patterns(ctx) + qpool.generated_texts(ctx.rng, 150 if ctx.tier == "quick" else 3000)
     ctx.exhaustive_spaces.append("all 30 patterns of 1-4 | / & operators")
-    docs = qpool.DOCS + qpool.generated_docs(ctx.rng, 15 if ctx.tier == "quick" else 200)
+    docs = qpool.DOCS[:2] + [{"a": [True, 2, 0, [1], {"k": True}, 1.0], "b": [1, 2, False, [True], {"k": 1}, 1], "c": [1.0, 2.0, True], "x": True, "y": 1, "z": False}] + qpool.DOCS[2:] + qpool.generated_docs(ctx.rng, 15 if ctx.tier == "quick" else 200)
     cases = []
     for t in texts:
-        for d in docs[:2] + ctx.rng.sample(docs[2:], 5 if ctx.tier == "quick" else 18):
+        for d in docs[:3] + ctx.rng.sample(docs[3:], 4 if ctx.tier == "quick" else 17):
             cases.append({"text": t, "doc": d})
     return cases
 
